@@ -543,18 +543,24 @@ func (s *BaseNodeService) reinitDKG(message storage.Message) error {
 		return nil
 	}
 
-	// temporarily fix cause we can't verify patch messages
-	// TODO: remove later
-	if !s.GetSkipCommKeysVerification() {
-		s.SetSkipCommKeysVerification(true)
-		defer s.SetSkipCommKeysVerification(false)
-	}
+	// The messages of the dump are verified like the messages of the original ceremony were, under the
+	// communication keys of its opening proposal: what the original nodes rejected (forged or garbled
+	// messages that sat on the board) must be rejected again. Only the self-confirmations synthesised
+	// by the 0.1.4 adaptation carry no signature and cannot be verified.
+	skipVerification := s.GetSkipCommKeysVerification()
+	defer s.SetSkipCommKeysVerification(skipVerification)
 
 	operations := make([]*types.Operation, 0)
 	for _, msg := range req.Messages {
 		if fsm.Event(msg.Event) == sif.EventSigningStart {
 			break
 		}
+
+		// a message of another round has no business in the re-initialisation of this one
+		if msg.DkgRoundID != req.DKGID {
+			continue
+		}
+		s.SetSkipCommKeysVerification(skipVerification || isAdaptationPatch(msg))
 
 		// LDC-07 Messages May Be Sent to a Single Node
 		//
@@ -603,11 +609,25 @@ func (s *BaseNodeService) reinitDKG(message storage.Message) error {
 		return fmt.Errorf("failed to get FSM dump")
 	}
 
-	if err := s.fsmService.SaveFSM(message.DkgRoundID, fsmDump); err != nil {
+	if err := s.fsmService.SaveFSM(req.DKGID, fsmDump); err != nil {
 		return fmt.Errorf("failed to SaveFSM: %w", err)
 	}
 
 	return nil
+}
+
+// isAdaptationPatch tells whether a message is a self-confirmation synthesised by GetAdaptedReDKG
+// for dumps of version 0.1.4 (unsigned, from a participant to itself)
+func isAdaptationPatch(msg storage.Message) bool {
+	if len(msg.Signature) != 0 || msg.SenderAddr != msg.RecipientAddr ||
+		fsm.Event(msg.Event) != dpf.EventDKGDealConfirmationReceived {
+		return false
+	}
+	var req requests.DKGProposalDealConfirmationRequest
+	if err := json.Unmarshal(msg.Data, &req); err != nil {
+		return false
+	}
+	return string(req.Deal) == "self-confirm"
 }
 
 // processSignature saves a broadcasted reconstructed signature to a LevelDB
